@@ -15,7 +15,7 @@ package operations
 //@   trusted json.Unmarshal into the freshly allocated body struct; panics on undecodable bytes (excluded by decodable(op) at the callers)
 //@   mode math
 //@   ensures result == c
-//@   modifies TransactionBody.*, errorBody.*, increaseBody.*, PutBody.*, RemoveBody.*, InsertBody.*, DeleteBody.*, UpdateBody.*, DocPutInObjBody.*, DocRemoveInObjectBody.*, DocInsertToArrayBody.*, DocDeleteInArrayBody.*, DocUpdateInArrayBody.*
+//@   modifies TransactionBody.* @ c, errorBody.* @ c, increaseBody.* @ c, PutBody.* @ c, RemoveBody.* @ c, InsertBody.* @ c, DeleteBody.* @ c, UpdateBody.* @ c, DocPutInObjBody.* @ c, DocRemoveInObjectBody.* @ c, DocInsertToArrayBody.* @ c, DocDeleteInArrayBody.* @ c, DocUpdateInArrayBody.* @ c
 
 // ModelToOperation: identifier and type survive, the Go operation type matches the wire type,
 // and the unsupported-type panic is unreachable for every declared type.
@@ -43,7 +43,7 @@ package operations
 //@   ensures[docdel]   (op.OpType == model.TypeOfOperation_DOC_ARR_DEL) == result.(*DocDeleteInArrayOperation)
 //@   ensures[docupd]   (op.OpType == model.TypeOfOperation_DOC_ARR_UPD) == result.(*DocUpdateInArrayOperation)
 //@   ensures[input-untouched] op.ID == old(op.ID) && op.OpType == old(op.OpType)
-//@   modifies TransactionBody.*, errorBody.*, increaseBody.*, PutBody.*, RemoveBody.*, InsertBody.*, DeleteBody.*, UpdateBody.*, DocPutInObjBody.*, DocRemoveInObjectBody.*, DocInsertToArrayBody.*, DocDeleteInArrayBody.*, DocUpdateInArrayBody.*, baseOperation.*, SnapshotOperation.*, ErrorOperation.*, TransactionOperation.*, IncreaseOperation.*, PutOperation.*, RemoveOperation.*, InsertOperation.*, DeleteOperation.*, UpdateOperation.*, DocPutInObjOperation.*, DocRemoveInObjOperation.*, DocInsertToArrayOperation.*, DocDeleteInArrayOperation.*, DocUpdateInArrayOperation.*
+//@   modifies nothing
 
 // marshalBody encodes an operation body as JSON. Trusted: encoding/json cannot fail on the body
 // structs of this package (strings, integers, timestamps, JSON-normalised values), so the
